@@ -1299,6 +1299,10 @@ class Interp:
                 spec = ast.unparse(v.format_spec)[2:-1] if v.format_spec is not None else ""
                 if isinstance(val, Const) and not spec and v.conversion == -1 and isinstance(val.v, (str, int)):
                     parts.append(str(val.v))
+                elif isinstance(val, Term) and val.op == "fstr" and not spec and v.conversion == -1:
+                    # an f-string interpolated into an f-string: its parts are this string's parts
+                    allconst = False
+                    parts.extend(val.args)
                 else:
                     allconst = False
                     parts.append((val, spec))
